@@ -604,6 +604,11 @@ class Lengths:
         if k == "ref":
             return self.lin(e[2], fn)
         if k == "phi":
+            if any(x[0] == "cycle" for a in e[2] for x in walk(a)):
+                nm = [vn for vn, l, pj in fn.var_places if l == e[1] and not pj]
+                got = self._loop_acc(nm[0], fn) if nm else None
+                if got is not None:
+                    return got
             out = []
             for x in e[2]:
                 out.extend(self.lin(x, fn))
@@ -673,7 +678,66 @@ class Lengths:
             if last in ("into", "from", "try_into", "unwrap", "clone"):
                 return self.lin(simp(e[3][0]), fn)
             raise Unknown("call %s in a length" % nm)
+        if k == "place" and re.match(r"^[A-Za-z_]\w*$", e[1]):
+            got = self._loop_acc(e[1], fn)
+            if got is not None:
+                return got
         raise Unknown("length expression %s" % expr_str(e)[:80])
+
+    def _loop_acc(self, name, fn):
+        """`let mut acc = c; for x in list { acc = acc + f(x); }`  ==  c + S(list){f(item)}"""
+        ls = [l for vn, l, pj in fn.var_places if vn == name and not pj]
+        if len(ls) != 1 or ls[0] <= fn.arg_count:
+            return None
+        l = ls[0]
+        ebf = ExprBuilder(self.prog, fn)
+        ebu = ExprBuilder(self.prog, fn, user_stop=True)
+        loops = natural_loops(fn)
+        outside, inside = [], {}
+        for d in fn.defs(l):
+            if d[0] not in ("assign", "call"):
+                return None
+            hs = [(len(body), h) for h, body, backs in loops if d[1] in body]
+            if not hs:
+                outside.append(d)
+            else:
+                inside.setdefault(min(hs)[1], []).append(d)
+        if len(outside) != 1 or len(inside) != 1:
+            return None
+        head = list(inside)[0]
+        body = [bd for h, bd, bk in loops if h == head][0]
+        if any(h != head and h in body for h, bd, bk in loops):
+            return None
+        it_expr = None
+        for x in sorted(body):
+            t = fn.blocks[x]["term"]
+            if t["k"] == "switch":
+                de = ebf.operand(t["discr"])
+                if de[0] == "discr" and de[1][0] == "call" and (callee_name(de[1]) or "").split("::")[-1] == "next":
+                    it_expr = de[1][3][0]
+                    break
+        if it_expr is None:
+            return None
+        itn = simp(it_expr)
+        if itn[0] == "place" and re.match(r"^\w+$", itn[1]):
+            ds = ebf.var_defs(itn[1])
+            if len(ds) == 1:
+                itn = simp(ds[0])
+        list_name = self._list_name(itn)
+        base = self.lin(simp(ebu._def_expr(outside[0], 0, ())), fn)
+        items = [vn for vn, l2, pj in fn.var_places if not pj and l2 != l and any(d[0] in ("assign", "call") and d[1] in body and "@Some.0" in expr_str(ebf._def_expr(d, 0, (l2,)))[:400] and "next(" in expr_str(ebf._def_expr(d, 0, (l2,)))[:400] for d in fn.defs(l2))]
+        per = []
+        for d in inside[head]:
+            e2 = simp(ebu._def_expr(d, 0, ()))
+            for f in self.lin_acc(e2, fn, name):
+                kk = f.key()
+                for it in items:
+                    kk = re.sub(r"\b%s\b" % re.escape(it), "item", kk)
+                kk = re.sub(r"\(Iterator>::next\(\w+\)\)@Some\.0(\.\*)?", "item", kk)
+                per.append(kk)
+        if not per:
+            return None
+        return [b.add(Form.atom("S(%s){%s}" % (list_name, p_))) for b in base for p_ in sorted(set(per))]
 
     def _len_arg(self, a):
         a = simp(a)
